@@ -717,7 +717,7 @@ Qed.
 Lemma step_ok w c o w' c' code :
   w_ok w -> cat_ok c -> op_guard o = true -> step root (w, c) o = (w', c', code) -> w_ok w' /\ cat_ok c'.
 Proof.
-  intros Hw Hc Hg. unfold step. destruct o as [k tf y tag|k tf ys tag|k|k]; cbn in Hg.
+  intros Hw Hc Hg. unfold step. destruct o as [k tf y tag|k tf ys tag|k|k|]; cbn in Hg.
   - destruct (fe_create w c root k tf y tag) as [[w1 c1] r] eqn:E. intros K. inversion K; subst.
     eapply fe_create_ok; eauto.
   - destruct (write_csm1 w c k tf ys tag) as [[w1 c1] r] eqn:E. intros K. inversion K; subst.
@@ -725,6 +725,11 @@ Proof.
   - destruct (fe_destroy w c k) as [[w1 c1] r] eqn:E. intros K. inversion K; subst.
     eapply fe_destroy_ok; eauto.
   - intros K. inversion K; subst. auto.
+  - pose proof (new_directory_call w root Hw (inrootd_inroot _ _ inrootd_root)) as H.
+    pose proof (new_directory_path w root) as P.
+    destruct (new_directory w root) as [[n dm] e]. cbn [fst] in H, P. intros K. inversion K; subst.
+    split; auto. split; cbn [croot]; auto. rewrite P.
+    split; [apply is_rooted_clean; auto|]. rewrite stk_clean; auto. apply inrootd_root.
 Qed.
 
 Lemma init_world_ok : w_ok (init_world root).
